@@ -311,18 +311,60 @@ class Check(PropertyCheck):
         return fails
 
     def known(self, case, obs, failure):
-        if not failure.startswith("url:"): return None
-        # F-C33b: the host is an internationalised name (non-ASCII in its decoded form)
+        """F-C33b exactly: the URL's host is an internationalised name (non-ASCII once IDNA-decoded) AND the failure is the rejection of
+        the assignment — of the URL itself when it is given in U-label form, or of the URL read back (U-label form) when assigning again"""
         if case["k"] == "url":
             if obs["st1"] != "ok":
-                return "F-C33b" if case["valid"] and nonascii(case["valid"]["host"]) else None
-            if "rejected when assigned again" in failure and nonascii(obs["s1"]["host"]): return "F-C33b"
+                return "F-C33b" if failure.startswith("url: valid URL") and failure.endswith("is rejected") and case["valid"] \
+                    and nonascii(case["valid"]["host"]) and not nonascii(case["u"].replace(case["valid"]["host"], "")) else None
+            if failure.startswith("url: the URL read back,") and failure.endswith("is rejected when assigned again") \
+                    and obs["st2"] == "err" and nonascii(obs["s1"]["host"]) and nonascii(obs["url1"]):
+                return "F-C33b"
             return None
-        for (kind, v), st in zip(case["edits"], obs["steps"]):
-            if kind == "url" and st["st"] != "ok" and repr(v) in failure:
-                sp = ref_split(v)
-                if sp and nonascii(sp[1]): return "F-C33b"
+        if case["k"] == "edit" and failure.startswith("url: valid URL") and failure.endswith("is rejected"):
+            for (kind, v), st in zip(case["edits"], obs["steps"]):
+                if kind == "url" and st["st"] != "ok" and failure == "url: valid URL %r is rejected" % v:
+                    sp = ref_split(v)
+                    if sp and nonascii(sp[1]) and not nonascii(v.replace(sp[1], "")): return "F-C33b"
         return None
+
+    def known_selftest(self):
+        st = lambda host, url: {"scheme": "http", "host": host, "port": 80, "path": "/p", "hosthdr": None, "n_host": 0, "auth": "", "host_header": None, "url": url}
+        V = lambda h: {"scheme": "http", "host": h, "port": 80, "rest": "/p"}
+        base = {"k": "url", "h2": False, "hosthdr": None, "auth": "", "method": "GET"}
+        T = [
+            (dict(base, u="http://bücher.example/p", valid=V("bücher.example")), {"st1": "err", "s1": st("start.example", "x")},
+             "url: valid URL 'http://bücher.example/p' is rejected", "F-C33b"),
+            (dict(base, u="http://example.com/p", valid=V("example.com")), {"st1": "err", "s1": st("start.example", "x")},
+             "url: valid URL 'http://example.com/p' is rejected", None),                                     # ASCII host rejected: not the finding
+            (dict(base, u="http://xn--bcher-kva.example/p", valid=V("xn--bcher-kva.example")),
+             {"st1": "ok", "url1": "http://bücher.example/p", "s1": st("bücher.example", "http://bücher.example/p"), "st2": "err",
+              "url2": "http://bücher.example/p", "s2": st("bücher.example", "http://bücher.example/p")},
+             "url: the URL read back, 'http://bücher.example/p', is rejected when assigned again", "F-C33b"),
+            (dict(base, u="http://xn--bcher-kva.example/p", valid=V("xn--bcher-kva.example")),
+             {"st1": "ok", "url1": "http://bücher.example/p", "s1": st("bücher.example", "http://bücher.example/p"), "st2": "ok",
+              "url2": "http://bücher.example/q", "s2": st("bücher.example", "http://bücher.example/q")},
+             "url: assigning the URL read back ('http://bücher.example/p') changes the request: x", None),   # IDN host, other clause
+            (dict(base, u="http://xn--bcher-kva.example/p", valid=V("xn--bcher-kva.example")),
+             {"st1": "ok", "url1": "http://bücher.example/x", "s1": st("bücher.example", "http://bücher.example/x"), "st2": "err",
+              "url2": "", "s2": st("bücher.example", "")},
+             "url: 'http://xn--bcher-kva.example/p' reads back as the different URL 'http://bücher.example/x'", None),
+            (dict(base, u="http://example.com/p", valid=V("example.com")),
+             {"st1": "ok", "url1": "http://example.com/p", "s1": st("example.com", "http://example.com/p"), "st2": "err", "url2": "", "s2": st("example.com", "")},
+             "url: the URL read back, 'http://example.com/p', is rejected when assigned again", None),       # ASCII host: a new defect
+            ({"k": "edit", "h2": False, "hosthdr": None, "auth": "", "method": "GET", "scheme": "http", "host0": "h", "port0": 80,
+              "edits": [["url", "http://ñ.test/"]]}, {"steps": [{"st": "err", "s": st("h", "x")}]}, "url: valid URL 'http://ñ.test/' is rejected", "F-C33b"),
+            ({"k": "edit", "h2": False, "hosthdr": None, "auth": "", "method": "GET", "scheme": "http", "host0": "h", "port0": 80,
+              "edits": [["url", "http://n.test/"]]}, {"steps": [{"st": "err", "s": st("h", "x")}]}, "url: valid URL 'http://n.test/' is rejected", None),
+            ({"k": "edit", "h2": False, "hosthdr": "old:1", "auth": "", "method": "GET", "scheme": "http", "host0": "h", "port0": 80,
+              "edits": [["host", "ñ.test"]]}, {"steps": [{"st": "ok", "s": st("ñ.test", "x")}]}, "edit: Host header 'x' is not a valid authority", None),
+        ]
+        for case, obs, failure, want in T:
+            got = self.known(case, obs, failure)
+            assert got == want, ("known() selftest", case, failure, "expected", want, "got", got)
+
+    def setup(self, tier):
+        self.known_selftest()
 
     # ------------------------------------------------------------------ model tie
     @staticmethod
